@@ -1,6 +1,6 @@
 // C03: stop-token protocol — real source/inplace_stop_token.cpp + inplace_stop_callback<F>.
 #include "vf.h"
-#include "/repo/source/inplace_stop_token.cpp"
+#include "source/inplace_stop_token.cpp"
 #include <new>
 using namespace unifex;
 static int runs1, runs2;
